@@ -60,6 +60,41 @@ impl TypeDependencyGraph {
 //@|    ensures r == self.type_definitions@.contains_key(string_of(type_name@)),
 //@ END
 
+// the type index the discovery work-list consults (C07): filled by add_type_definition for every struct / enum item the
+// project walk finds, read by get_type_definition_path when a queued name is resolved. Postconditions over the whole view: an
+// insertion that also dropped or redirected another type's entry would fail the first clause.
+//@ EXTRACT-FN file=src/analysis/dependency_graph.rs in="impl TypeDependencyGraph" fn=add_type_definition props=C07,C09
+//@ CONTRACT
+//@|    ensures
+//@|        // the name is indexed afterwards, no other name appears or disappears
+//@|        final(self).type_definitions@.dom() =~= old(self).type_definitions@.dom().insert(type_name),
+//@|        // every other name keeps its file
+//@|        forall|k: String| #![trigger final(self).type_definitions@[k]] k != type_name && old(self).type_definitions@.contains_key(k)
+//@|            ==> final(self).type_definitions@[k] == old(self).type_definitions@[k],
+//@|        // the name points at the file given now or at the one it had (which of two same-named definitions wins is not
+//@|        // something C07 / C09 state, so it is not pinned)
+//@|        final(self).type_definitions@[type_name] == file_path
+//@|            || (old(self).type_definitions@.contains_key(type_name) && final(self).type_definitions@[type_name] == old(self).type_definitions@[type_name]),
+//@|        final(self).dependencies == old(self).dependencies,
+//@|        final(self).resolved_types == old(self).resolved_types,
+//@ END
+
+//@ EXTRACT-FN file=src/analysis/dependency_graph.rs in="impl TypeDependencyGraph" fn=get_type_definition_path props=C07,C09
+//@ RETURNS r
+//@ CONTRACT
+//@|    ensures
+//@|        r is Some <==> self.type_definitions@.contains_key(string_of(type_name@)),
+//@|        r is Some ==> *r->0 == self.type_definitions@[string_of(type_name@)],
+//@ END
+
+//@ EXTRACT-FN file=src/analysis/dependency_graph.rs in="impl TypeDependencyGraph" fn=get_dependencies props=C09,C07
+//@ RETURNS r
+//@ CONTRACT
+//@|    ensures
+//@|        r is Some <==> self.dependencies@.contains_key(string_of(type_name@)),
+//@|        r is Some ==> *r->0 == self.dependencies@[string_of(type_name@)],
+//@ END
+
 }
 
 impl CommandAnalyzer {
